@@ -108,6 +108,7 @@ def gen_spec(rng, nmax=8, p_lit=0.2, p_dep=0.25, p_kw=0.3, cyclic=False):
         for i in range(j):
             if rng.random() < p_dep / max(1, j / 2):
                 deps.append([i, j])
+    rng.shuffle(deps)
     if cyclic and n >= 2:
         # a back edge j -> i (i < j) closes a cycle iff j is reachable from i; add forward chain first
         i = rng.randrange(n - 1)
@@ -155,6 +156,7 @@ def gen_hub_spec(rng):
         deps.append([last, s])
         if rng.random() < 0.3:
             call([s])
+    rng.shuffle(deps)          # add_dependency calls happen in any order (e.g. out of a literal before into it)
     return {"nodes": nodes, "deps": deps}
 
 
@@ -186,6 +188,7 @@ def gen_litchain_spec(rng):
         prev = L
     for _ in range(rng.choice([0, 1])):
         call()
+    rng.shuffle(deps)
     return {"nodes": nodes, "deps": deps}
 
 
